@@ -236,8 +236,9 @@ def run(ctx):
             accepted_silently=len(items) - n_raised,
             per_construct_raised_accepted={k: v for k, v in sorted(per_construct.items())},
             rule="complete cross product of %d unsupported statement forms x 10 statement positions and %d unsupported expression forms x 10 expression positions "
-            "(constructs without effect are not placed as statements with unused value); each compiled from a fresh state through compile_c_stmt; the call must raise; "
-            "every source text is distinct and non-trivial (contains one unsupported construct between supported statements)" % (len(STMTS), len(EXPRS)),
+            "(constructs without effect are not placed as statements with unused value); %d unknown function names that are prefixes / substrings / extensions of names the compiler knows x 7 positions; "
+            "20 supported programs in which every statement and side-effecting sub-expression must be represented in the returned sequence; each compiled from a fresh state through compile_c_stmt; the call must raise; "
+            "every source text is distinct and non-trivial (contains one unsupported construct between supported statements)" % (len(STMTS), len(EXPRS), len(UNKNOWN_NAMES)),
             exhaustive=True,
         ),
         assumptions=["a construct counts as unsupported if the compiler has no translation for it (the property's list)", "constructs without any effect (e.g. a bare sizeof) may be accepted silently, as in C"],
